@@ -14,7 +14,7 @@ if [ "$1" = "--one" ]; then
   prop=${id%%-*}
   props="$prop $(python3 -c "import json;print(' '.join(json.load(open('$d/meta.json')).get('also_check',[])))" 2>/dev/null | grep -v conda)"
   # behaviour-preserving changes (harmless/R-k): the properties to check are listed in meta.json
-  if [ "$prop" = "R" ] || [ "$prop" = "S" ] || [ "$prop" = "T" ]; then props="$(python3 -c "import json;print(' '.join(json.load(open('$d/meta.json')).get('properties',[])))" 2>/dev/null | grep -v conda)"; fi
+  if [ "$prop" = "R" ] || [ "$prop" = "S" ] || [ "$prop" = "T" ] || [ "$prop" = "V" ]; then props="$(python3 -c "import json;print(' '.join(json.load(open('$d/meta.json')).get('properties',[])))" 2>/dev/null | grep -v conda)"; fi
   if ! git -C "$W" apply $d/patch.diff 2>/dev/null; then echo "$id apply-failed (the stored patch no longer applies to /repo HEAD)" > "$OUT/$id.res"
   else
     : > "$OUT/$id.res"
